@@ -87,6 +87,12 @@ def routing_case(draw, sub, focus="filters"):
     if draw(st.integers(0, 4)) == 0:
         o["length1"] = draw(st.sampled_from([5, 10, 15, -6]))
     r1, r2 = draw(scen.reads(ad1, ad2, paired, fastq=fastq, n_max=8, min_reads=2))
+    if action == "lowercase" and draw(st.booleans()):
+        # soft-masked input: what is not touched must stay as it is, what is kept is upper-cased
+        for rec in r1 + (r2 or []):
+            if rec[1] and draw(st.booleans()):
+                p_ = draw(st.integers(0, len(rec[1]) - 1))
+                rec[1] = rec[1][:p_] + rec[1][p_:].lower()
     if (ad1 or ad2) and not pair_adapters and draw(st.integers(0, 5)) == 0:
         # --revcomp: some reads (pairs) arrive the other way round; every later step works on the chosen orientation
         o["revcomp"] = True
